@@ -3,9 +3,9 @@ package rules
 
 import (
 	"fmt"
-	"os"
 	"go/token"
 	"go/types"
+	"os"
 	"sort"
 	"strings"
 
@@ -43,6 +43,10 @@ type Ctx struct {
 	P    *load.Program
 	Tier string
 	R    *report.Result
+
+	globalHeld  map[string]string
+	callers     map[*ssa.Function][]ssa.CallInstruction
+	anchorTrees map[string]map[*ssa.Function]bool
 
 	cg     *callgraph.Graph
 	cgCHA  *callgraph.Graph
@@ -372,4 +376,32 @@ func (c *Ctx) ConvertedImplMethods(pkg, iface, name string) []*ssa.Function {
 		}
 	}
 	return out
+}
+
+// StaticCallers returns the static call sites (and go/defer statements) of fn in the repository.
+func (c *Ctx) StaticCallers(fn *ssa.Function) []ssa.CallInstruction {
+	if c.callers == nil {
+		c.callers = map[*ssa.Function][]ssa.CallInstruction{}
+		for _, f := range c.P.Funcs {
+			Calls(f, func(cc ssa.CallInstruction) {
+				if st := ir.Callee(cc).Static; st != nil {
+					c.callers[st] = append(c.callers[st], cc)
+				}
+			})
+		}
+	}
+	return c.callers[fn]
+}
+
+// CallersIn restricts StaticCallers to call sites located in the given function set.
+func (c *Ctx) CallersIn(set map[*ssa.Function]bool) func(*ssa.Function) []ssa.CallInstruction {
+	return func(fn *ssa.Function) []ssa.CallInstruction {
+		var out []ssa.CallInstruction
+		for _, cc := range c.StaticCallers(fn) {
+			if set == nil || set[cc.Parent()] {
+				out = append(out, cc)
+			}
+		}
+		return out
+	}
 }
